@@ -55,17 +55,34 @@ func swap_BANG(ctx context.Context, a ...MalType) (MalType, error) {
 		return nil, errors.New("swap! called with non-atom")
 	}
 	atm := a[0].(*Atom)
-	atm.Mutex.Lock()
-	defer atm.Mutex.Unlock()
-	args := []MalType{atm.Val}
 	f := a[1]
-	args = append(args, a[2:]...)
-	res, e := Apply(ctx, f, args)
-	if e != nil {
-		return nil, e
+	// Apply the update function outside the lock and install its result only if the atom has not
+	// been changed meanwhile, retrying otherwise (as Clojure does): holding the write lock across
+	// the call made an update function that derefs or prints its own atom block forever.
+	for {
+		atm.Mutex.RLock()
+		old, version := atm.Val, atm.version
+		atm.Mutex.RUnlock()
+		args := append([]MalType{old}, a[2:]...)
+		res, e := Apply(ctx, f, args)
+		if e != nil {
+			return nil, e
+		}
+		atm.Mutex.Lock()
+		if atm.version == version {
+			atm.Set(res)
+			atm.Mutex.Unlock()
+			return res, nil
+		}
+		atm.Mutex.Unlock()
+		if ctx != nil {
+			select {
+			case <-ctx.Done():
+				return nil, errors.New("timeout while evaluating expression")
+			default:
+			}
+		}
 	}
-	atm.Set(res)
-	return res, nil
 }
 
 // Atoms
@@ -74,6 +91,8 @@ type Atom struct {
 	Val    MalType
 	Meta   MalType
 	Cursor *Position
+
+	version uint64 // incremented by every Set; lets swap! detect a concurrent change
 }
 
 func (a *Atom) Type() string {
@@ -82,6 +101,7 @@ func (a *Atom) Type() string {
 
 func (a *Atom) Set(val MalType) MalType {
 	a.Val = val
+	a.version++
 	return a
 }
 
